@@ -58,8 +58,14 @@ func (g *deepcopyGen) generateType(c gengo.Context, named *types.Named) error {
 	defers := make([]*types.Named, 0)
 
 	if interfaces != "" {
+		// methods of map types have value receivers, DeepCopy returns the map itself
+		receiver := "*"
+		if _, ok := named.Underlying().(*types.Map); ok {
+			receiver = ""
+		}
+
 		c.RenderT(`
-func(in *@Type) DeepCopyObject() @ObjectInterface {
+func(in @Receiver'@Type) DeepCopyObject() @ObjectInterface {
 	if c := in.DeepCopy(); c != nil {
 		return c
 	}
@@ -68,6 +74,7 @@ func(in *@Type) DeepCopyObject() @ObjectInterface {
 
 `, snippet.Args{
 			"ObjectInterface": snippet.ID(interfaces),
+			"Receiver":        snippet.Block(receiver),
 			"Type":            snippet.ID(named.Obj()),
 		})
 	}
